@@ -130,6 +130,17 @@ Example ex_during_installation :
             hist s = [EInstallCall; EInstRet 1; EInstallRet] /\ forwards s 1 = true.
 Proof. eexists. split; [vm_compute; reflexivity|]. vm_compute. split; reflexivity. Qed.
 
+(** The same identity requested twice before installation: one placeholder, two handles, and a
+    measurement through each of them arrives after installation. *)
+Definition ex3_prog : nat -> op :=
+  prog_of [OpMeter 0; OpInst 0; OpInstAgain 0 1; OpInstall; OpRecord 1; OpRecord 2].
+Definition ex3_sched : list nat := [0;0;0; 1;1;1; 2;2;2; 3;3;3;3;3;3;3;3;3;3;3; 4;4; 5;5].
+Example ex_same_identity_twice :
+  exists s, run false ex3_prog init ex3_sched = Some s /\
+            ist s 2 = IAlias 1 /\ forwards s 1 = true /\ forwards s 2 = true /\
+            count (ESdkRec 4) (hist s) = 1 /\ count (ESdkRec 5) (hist s) = 1.
+Proof. eexists. split; [vm_compute; reflexivity|]. vm_compute. repeat split; reflexivity. Qed.
+
 (** The deadlock-freedom theorem talks about real waiting: here thread 1 waits for meter 0's lock. *)
 Example ex_blocked_thread :
   exists s, run false ex2_prog init [0;0;0; 2;2;2;2;2; 1] = Some s /\
